@@ -17,6 +17,9 @@ import (
 
 // Ctx returns a context whose logger discards everything.
 func Ctx() context.Context {
+	if os.Getenv("VERIF_DEBUG") != "" {
+		return logger.ContextWithLogConfig(context.Background(), logger.NewConfig(true, false, ""))
+	}
 	return logger.ContextWithNoLogger(context.Background())
 }
 
